@@ -447,3 +447,54 @@ func (P *Program) genericMethods(rel, typ string) []*ssa.Function {
 	}
 	return out
 }
+
+// findReachable returns the first function reachable from the exported entry
+// points (by static calls inside the repository) that satisfies pred, in
+// breadth-first order: internal helpers are located by what they are, not by
+// what they are called.
+func (P *Program) findReachable(roots []*ssa.Function, pred func(*ssa.Function) bool) *ssa.Function {
+	seen := map[*ssa.Function]bool{}
+	queue := []*ssa.Function{}
+	for _, r := range roots {
+		if r != nil {
+			queue = append(queue, r)
+			seen[r] = true
+		}
+	}
+	for len(queue) > 0 {
+		f := queue[0]
+		queue = queue[1:]
+		if pred(f) {
+			return f
+		}
+		if f.Blocks == nil {
+			continue
+		}
+		for _, b := range f.Blocks {
+			for _, in := range b.Instrs {
+				if c, ok := in.(ssa.CallInstruction); ok {
+					if cal := staticCallee(c); cal != nil && inRepo(cal) && !seen[cal] {
+						seen[cal] = true
+						queue = append(queue, cal)
+					}
+				}
+			}
+		}
+	}
+	return nil
+}
+
+// sigIs reports whether fn's parameter and result types print as given
+// (package qualifiers dropped), e.g. sigIs(f, "(*UnknownField, []byte, int8, int16)", "(int, error)").
+func sigIs(fn *ssa.Function, params, results string) bool {
+	q := func(*types.Package) string { return "" }
+	var ps, rs []string
+	for _, p := range fn.Params {
+		ps = append(ps, types.TypeString(p.Type(), q))
+	}
+	res := fn.Signature.Results()
+	for i := 0; i < res.Len(); i++ {
+		rs = append(rs, types.TypeString(res.At(i).Type(), q))
+	}
+	return "("+strings.Join(ps, ", ")+")" == params && "("+strings.Join(rs, ", ")+")" == results
+}
